@@ -138,10 +138,11 @@ def check (P : Params) (h : Nat) (s0 : State) : Tx → Option String
     | none => some "noprod"
     | some a => if inp - change > a.available ∨ out ≥ a.available then some "overspend" else none
   | .vote k lock vs bad =>
+    -- the payload's own validation (Voting.Validate) refuses non-positive votes before the context check runs
+    if vs.any (· ≤ 0) then some "zero" else
     match get k s0.stakes with
     | none => some "norights"
     | some t =>
-      if vs.any (· ≤ 0) then some "zero" else
       match voteLoop h lock P.minLock P.maxLock bad 0 vs with
       | some e => some e
       | none => if sumI vs > t.rights - t.used then some "notenough" else none
